@@ -6,6 +6,8 @@ From Sophia.Common Require Import Term.
 From Sophia.C04 Require Import Regex Grammar Model AtomsProofs PreFix Proofs.
 From Sophia.C04 Require Import TermGrammar TermRead TermText TermProofs.
 From Sophia.C04 Require Import Deep DeepProofs.
+From Sophia.C04 Require Import DocRead DocText DocProofs DocStore.
+From Sophia.C04 Require DocShapes DocClass.
 From Sophia.C04 Require Lang Incl TermShapes PrefixIncl.
 From Sophia.C09 Require Model.
 
@@ -246,6 +248,146 @@ Check (accounting_checked_deep : forall maxd ks first rest nil type_ quads label
 Example max_depth_is_64 : max_depth = 64.
 Proof. reflexivity. Qed.
 
+
+(* ===== (9) the TEXT of a WHOLE DOCUMENT, for the datasets that need no abbreviation of blank nodes: the layout code of the
+   pretty writer (DocText.v: prettify / write_prefixes / write_all / next_graph / write_graph / write_tree / write_properties /
+   write_objects / write_object / write_newline / indent / unindent, a state threaded through them, every term written by the
+   term writer of (6)) against a reader of DOCUMENTS written from the W3C Turtle / TriG grammars (DocRead.v).  Proved piece by
+   piece; the class (every blank node subject / object labelled, no annotated quoted subject) is a boolean on the plan. ===== *)
+(* the token of a prefix declaration *)
+Check (DocShapes.pname_ns_build : forall pre, pre = [] \/ matchb PN_PREFIX pre = true -> matchb PNAME_noesc (pre ++ [58]) = true).
+(* one term, the nesting bound of the term reader being the length of the input; the verb `a` *)
+Check (read_tm_wt : forall absf pm p t rest, pm_ok pm = true -> wf_at p t = true -> stop_ok rest = true ->
+  read_tm p pm (wt_at absf pm p t ++ rest) = Some (t, rest)).
+Check (read_verb_a : forall pm rest, stop_ok rest = true -> read_tm TPred pm (97 :: rest) = Some (Iri rdf_type, rest)).
+(* a subject is never taken for the key words PREFIX / GRAPH (even with prefixes named `GRAPH`, `prefix` ...) *)
+Check (subj_not_kw : forall absf pm t rest, pm_ok pm = true -> wf_at TSubj t = true ->
+  kw_ws kw_PREFIX (wt_at absf pm TSubj t ++ rest) = None /\ kw_ws kw_GRAPH (wt_at absf pm TSubj t ++ rest) = None).
+(* PIECE 1: an object list *)
+Check (read_objects_ok : forall absf pm, pm_ok pm = true -> forall c2, ws_str c2 = true -> forall w o os tail f,
+  ws_str w = true -> forallb (wf_at TObj) (o :: os) = true -> stop_ok tail = true -> no_comma tail = true ->
+  (length (w ++ wt_at absf pm TObj o ++ lay_objs_tail (wt_at absf pm) c2 os ++ tail) <= f)%nat ->
+  read_objs f pm (w ++ wt_at absf pm TObj o ++ lay_objs_tail (wt_at absf pm) c2 os ++ tail) = Some (o :: os, tail)).
+(* the loop of write_properties after an object: (',' object)*, then (';' verb objectList)*, then ".\n" *)
+Check (read_rest_ok : forall absf pm, pm_ok pm = true -> forall c1 c2, ws_str c1 = true -> ws_str c2 = true ->
+  forall oth v more, forallb wf_po oth = true ->
+  let X := lay_rest (wt_at absf pm) c1 c2 (Some v) oth ++ 46 :: 10 :: more in
+  exists os X' prs,
+    (forall f1, (length X < f1)%nat -> read_objs_tail f1 pm X = Some (os, X')) /\
+    (forall f2, (length X < f2)%nat -> read_pol_tail f2 pm X' = Some (prs, 46 :: 10 :: more)) /\
+    map (pair v) os ++ prs = oth).
+(* PIECE 2: the predicate-object list of a subject (` a ` and the rdf:type objects first) *)
+Check (read_pol_ok : forall absf pm, pm_ok pm = true -> forall c1 c2, ws_str c1 = true -> ws_str c2 = true ->
+  forall tys oth more f, forallb (wf_at TObj) tys = true -> forallb wf_po oth = true -> tree_pairs tys oth <> [] ->
+  let X := lay_props (wt_at absf pm) c1 c2 tys (Iri rdf_type) oth ++ 46 :: 10 :: more in
+  (length X < f)%nat -> read_pol f pm X = Some (tree_pairs tys oth, 46 :: 10 :: more)).
+(* PIECE 3: one subject tree *)
+Check (read_tree_ok : forall absf pm, pm_ok pm = true -> forall c1 c2, ws_str c1 = true -> ws_str c2 = true ->
+  forall g s tys oth more f, wf_at TSubj s = true -> forallb (wf_at TObj) tys = true -> forallb wf_po oth = true ->
+  tree_pairs tys oth <> [] ->
+  let X := wt_at absf pm TSubj s ++ lay_props (wt_at absf pm) c1 c2 tys (Iri rdf_type) oth ++ 46 :: 10 :: more in
+  (length X <= f)%nat ->
+  read_triples f pm g X = Some (map (fun po => (g, s, fst po, snd po)) (tree_pairs tys oth), 46 :: 10 :: more)).
+(* PIECE 4: the inside of a GRAPH block *)
+Check (read_block_ok : forall absf pm, pm_ok pm = true -> forall ind, ws_str ind = true -> forall g cur ts w more f,
+  ws_str cur = true -> ws_str w = true -> forallb wf_tree ts = true ->
+  let X := w ++ lay_trees (wt_at absf pm) ind cur ts ++ 125 :: 10 :: more in
+  (length X < f)%nat -> read_block f pm (Some g) X = Some (flat_map (tree_rquads (Some g)) ts, 10 :: more)).
+(* PIECE 5: the body of a document: trees of the default graph and GRAPH blocks *)
+Check (read_items_ok : forall absf pm, pm_ok pm = true -> forall ind, ws_str ind = true -> forall cur its w f,
+  ws_str cur = true -> ws_str w = true -> forallb wf_item its = true ->
+  let X := w ++ lay_items (wt_at absf pm) ind cur its in
+  (length X < f)%nat -> read_top f pm X = Some (flat_map item_rquads its)).
+(* PIECE 6: the PREFIX lines: the declarations are in force, in order, for the body *)
+Check (read_prefixes_ok : forall pmx pm0 w body f, forallb decl_ok pmx = true -> ws_str w = true ->
+  (length (w ++ w_prefixes (fun s => s) pmx ++ body) < f)%nat ->
+  exists f' w', ws_str w' = true /\ (length (w' ++ body) < f')%nat /\
+    read_top f pm0 (w ++ w_prefixes (fun s => s) pmx ++ body) = read_top f' (pm0 ++ pmx) (w' ++ body)).
+(* the WRITER (state threaded through write_properties / write_tree / write_graph / next_graph / write_all, indent and
+   unindent included) produces the structural layout, whatever the encoding and the term writer *)
+Check (w_properties_lay : forall enc wterm indentation d g s o c,
+  w_properties enc wterm indentation d g s {| l_out := o; l_ind := c |}
+  = {| l_out := o ++ lay_props wterm (c ++ enc indentation) (c ++ enc indentation ++ enc indentation) (tys_of d g s)
+                               (Iri w_rdf_type) (oth_of (group d g s));
+       l_ind := c |}).
+Check (w_named_lay : forall enc wterm indentation d fuel keys o c, forallb has_g keys = true ->
+  w_named enc wterm indentation d fuel keys {| l_out := o; l_ind := c |}
+  = Some {| l_out := o ++ lay_items wterm (enc indentation) c (named_items d fuel keys); l_ind := c |}).
+Check (w_all_lay : forall enc wterm indentation d base,
+  forallb has_g (skipn (length (take_while (fun k => is_none (fst k)) (subject_keys d))) (subject_keys d)) = true ->
+  w_all enc wterm indentation d base
+  = Some {| l_out := lay_items wterm (enc indentation) (enc base) (doc_items d); l_ind := enc base |}).
+Check (wf_doc_items : forall d, forallb wf_quad d = true -> forallb wf_item (doc_items d) = true).
+Check (doc_items_quads : forall d, nones_first (map tq_g d) = true -> flat_map item_rquads (doc_items d) = doc_quads d).
+(* THE DOCUMENT THEOREM: indentation strings of white space, valid distinct prefixes, namespaces that can stand in an IRIREF,
+   terms within the hypotheses of the term theorem, default graph first, dataset of the class *)
+Check (wt_doc_text : forall absf pm base ind lab d, nones_first (map tq_g d) = true -> in_class lab d = true ->
+  wt_doc absf pm base ind lab d = Some (doc_text absf pm base ind d)).
+Check (read_doc_text : forall absf pm base ind d, doc_hyps pm base ind d = true ->
+  read_doc (doc_text absf pm base ind d) = Some (doc_quads d)).
+Check (doc_roundtrip : forall absf pm base ind lab d, doc_hyps pm base ind d = true -> in_class lab d = true ->
+  exists text, wt_doc absf pm base ind lab d = Some text /\ read_doc text = Some (doc_quads d)).
+(* on bytes: what the writer emits is the UTF-8 encoding of that text; decode, read *)
+Check (wr_doc_bytes : forall absf pm base ind lab d, nones_first (map tq_g d) = true -> in_class lab d = true ->
+  wr_doc absf pm base ind lab d = Some (utf8 (doc_text absf pm base ind d))).
+Check (wr_doc_wt_doc : forall absf pm base ind lab d, nones_first (map tq_g d) = true ->
+  wr_doc absf pm base ind lab d = option_map utf8 (wt_doc absf pm base ind lab d)).
+Check (scalar_doc_text : forall absf pm base ind d,
+  scalar_pm pm = true -> ws_str base = true -> ws_str ind = true -> forallb scalar_quad d = true ->
+  scalar_str (doc_text absf pm base ind d) = true).
+Check (doc_roundtrip_bytes : forall absf pm base ind lab d,
+  doc_hyps pm base ind d = true -> in_class lab d = true -> scalar_pm pm = true -> forallb scalar_quad d = true ->
+  exists bytes, wr_doc absf pm base ind lab d = Some bytes /\ read_doc_bytes bytes = Some (doc_quads d)).
+(* WHAT IS STATED IS THE DATASET.  Sound for any list; exact (a permutation, one for one) for a store in order *)
+Check (doc_quads_sound : forall d r, In r (doc_quads d) -> exists q, In q d /\ same_rq r q).
+Check (@partition_perm : forall (A K : Type) (m : K -> A -> bool) ks l,
+  (forall x, In x l -> length (filter (fun k => m k x) ks) = 1%nat) ->
+  Permutation (flat_map (fun k => filter (m k) l) ks) l).
+Check (key_eqb_enc : forall a b, wf_key a -> wf_key b -> (key_eqb a b = true <-> enc_key a = enc_key b)).
+Check (sorted_keys_nodup : forall d, store_sorted d = true -> forallb key_wfb d = true -> NoDup (map enc_key (subject_keys d))).
+Check (doc_quads_exact : forall d, store_sorted d = true -> forallb key_wfb d = true ->
+  exists d', Permutation d' d /\ Forall2 same_rq (doc_quads d) d').
+Check (doc_quads_length : forall d, store_sorted d = true -> forallb key_wfb d = true -> length (doc_quads d) = length d).
+Check (sorted_nones_first : forall d, store_sorted d = true -> nones_first (map tq_g d) = true).
+Check (doc_roundtrip_store : forall absf pm base ind lab d,
+  store_sorted d = true -> forallb key_wfb d = true ->
+  pm_ok pm = true -> ns_ok pm = true -> ws_str base = true -> ws_str ind = true -> forallb wf_quad d = true ->
+  in_class lab d = true ->
+  exists text qs d',
+    wt_doc absf pm base ind lab d = Some text /\ read_doc text = Some qs /\ Forall2 same_rq qs d' /\ Permutation d' d).
+(* the class: two rules of build_labelled, for all datasets -- a blank node that is a graph name, or that occurs inside a
+   quoted triple, is labelled *)
+Check (DocClass.graph_name_labelled : forall ks quads q g,
+  In q quads -> q_g q = Some g -> kind_of ks g = TB -> In g (build_labelled ks quads)).
+Check (DocClass.quoted_atom_labelled : forall ks quads q i t a, In q quads -> In (i, t) (spog q) ->
+  (exists x y z, kind_of ks t = TT x y z) -> is_bnode ks a = true -> In a (atoms (S (length ks)) ks t) ->
+  In a (build_labelled ks quads)).
+(* non-vacuity: a store in order, in the class for the plan computed by the model of build_labelled, its text, its reading *)
+Check (doc_example :
+  doc_hyps dx_pm [] [9] dx_d = true /\ store_sorted dx_d = true /\ covers dx_tab dx_d = true /\
+  in_class (plan_lab dx_tab dx_d) dx_d = true /\
+  wt_doc always dx_pm [] [9] (plan_lab dx_tab dx_d) dx_d = Some dx_text /\
+  read_doc dx_text = Some (doc_quads dx_d) /\
+  doc_quads dx_d = dx_d /\
+  forallb scalar_quad dx_d = true /\ scalar_pm dx_pm = true /\
+  doc_case_ok always dx_pm [] [9] dx_tab dx_d (utf8 dx_text) = true).
+Check (store_example : store_sorted dx_d = true /\ forallb key_wfb dx_d = true).
+(* outside the class, outside the hypotheses *)
+Check (outside_class_example :
+  let d := [ (None, dx_iri 115, dx_iri 112, Bnode [98]); (None, Bnode [98], dx_iri 113, dx_iri 111) ] in
+  let tab := [ Bnode [98]; Iri w_rdf_first; Iri w_rdf_nil; Iri w_rdf_rest; dx_iri 111; dx_iri 112; dx_iri 113; dx_iri 115 ] in
+  in_class (plan_lab tab d) d = false /\ wt_doc always [] [] [32; 32] (plan_lab tab d) d = None /\
+  doc_outside_ok always [] [] [32; 32] tab d = true).
+Check (annotation_outside_class :
+  let d := [ (None, dx_iri 97, dx_iri 98, dx_iri 99); (None, Triple (dx_iri 97) (dx_iri 98) (dx_iri 99), dx_iri 112, dx_iri 111) ] in
+  in_class (fun _ => true) d = false).
+Check (unsorted_store_refuted :
+  exists d, forallb wf_quad d = true /\ in_class (fun _ => true) d = true /\ nones_first (map tq_g d) = false /\
+    wt_doc always [] [] [32; 32] (fun _ => true) d = None).
+Check (indentation_refuted :
+  exists ind d, ws_str ind = false /\ doc_hyps [] [] [] d = true /\ in_class (fun _ => true) d = true /\
+    match wt_doc always [] [] ind (fun _ => true) d with Some text => read_doc text | None => None end <> Some (doc_quads d)).
+
 Print Assumptions PrefixIncl.pn_prefix_re_incl.
 Print Assumptions PrefixIncl.pn_prefix_re_complete.
 Print Assumptions PrefixIncl.pn_prefix_re_exact.
@@ -329,3 +471,42 @@ Print Assumptions langtag_sophia.
 Print Assumptions term_example.
 Print Assumptions stop_examples.
 Print Assumptions iri_ok_examples.
+Print Assumptions DocShapes.pname_ns_build.
+Print Assumptions read_tm_wt.
+Print Assumptions read_verb_a.
+Print Assumptions subj_not_kw.
+Print Assumptions read_objects_ok.
+Print Assumptions read_rest_ok.
+Print Assumptions read_pol_ok.
+Print Assumptions read_tree_ok.
+Print Assumptions read_block_ok.
+Print Assumptions read_items_ok.
+Print Assumptions read_prefixes_ok.
+Print Assumptions w_properties_lay.
+Print Assumptions w_named_lay.
+Print Assumptions w_all_lay.
+Print Assumptions wf_doc_items.
+Print Assumptions doc_items_quads.
+Print Assumptions wt_doc_text.
+Print Assumptions read_doc_text.
+Print Assumptions doc_roundtrip.
+Print Assumptions wr_doc_bytes.
+Print Assumptions wr_doc_wt_doc.
+Print Assumptions scalar_doc_text.
+Print Assumptions doc_roundtrip_bytes.
+Print Assumptions doc_quads_sound.
+Print Assumptions partition_perm.
+Print Assumptions key_eqb_enc.
+Print Assumptions sorted_keys_nodup.
+Print Assumptions doc_quads_exact.
+Print Assumptions doc_quads_length.
+Print Assumptions sorted_nones_first.
+Print Assumptions doc_roundtrip_store.
+Print Assumptions doc_example.
+Print Assumptions store_example.
+Print Assumptions outside_class_example.
+Print Assumptions annotation_outside_class.
+Print Assumptions unsorted_store_refuted.
+Print Assumptions indentation_refuted.
+Print Assumptions DocClass.graph_name_labelled.
+Print Assumptions DocClass.quoted_atom_labelled.
